@@ -343,3 +343,14 @@ package compile
 //@   requires c != nil && target != nil && deviate != nil && dp != nil && ghost("devChecked") == ghost("devApplied")
 //@   modifies *
 //@   loop 0 invariant ghost("devChecked") == ghost("devApplied")
+
+// Patterns (C13): a derived string type keeps every pattern row of its base and adds ONE row that holds every
+// pattern statement of the refining type statement, in order.
+//@ define basePats(b) = typed(str_pats(b), [][]schema.Pattern)
+//@ func (*Compiler).getPatterns
+//@   requires c != nil && base != nil && n != nil
+//@   ensures len(result) == len(basePats(base)) + 1 && forall(a, 0, len(basePats(base)), result[a] == old(basePats(base)[a]))
+//@   ensures len(result[len(result)-1]) == node_nchildren_of(n, parse.NodePattern)
+//@   ensures forall(k, 0, node_nchildren_of(n, parse.NodePattern), result[len(result)-1][k].Regexp == node_argpattern(node_child_of(n, parse.NodePattern, k)))
+//@   loop 0 invariant len(ps) == loopidx + 1 && isfresh(ps) && forall(k, 0, len(ps), ps[k].Regexp == node_argpattern(node_child_of(n, parse.NodePattern, k)))
+//@   loop 0 invariant len(looprange) == node_nchildren_of(n, parse.NodePattern) && forall(i, 0, len(looprange), looprange[i] == node_child_of(n, parse.NodePattern, i) && looprange[i] != nil)
